@@ -84,7 +84,8 @@ type SchedOut struct {
 }
 
 var opMenu = []string{"ScalarBaseMult", "VarTimeDoubleScalarBaseMult", "ScalarMult", "MultiScalarMult", "VarTimeMultiScalarMult",
-	"Add", "BytesRoundTrip", "NewGenerator", "ScalarInvert", "MultByCofactor"}
+	"Add", "BytesRoundTrip", "NewGenerator", "ScalarInvert", "MultByCofactor",
+	"Encode", "ScalarArith", "FieldArith", "NegateSubtract", "CoordsRoundTrip", "Equal"}
 
 func genSchedTrace(base, idx uint64, small bool) (*SchedTrace, sched.Policy, uint64) {
 	seed := prng.Derive(base, "C18", idx)
@@ -113,7 +114,7 @@ func genSchedTrace(base, idx uint64, small bool) (*SchedTrace, sched.Policy, uin
 	if small {
 		nt = 2 + rng.Intn(3)
 	}
-	w := []int{10, 8, 2, 2, 2, 1, 1, 1, 1, 1}
+	w := []int{10, 8, 2, 2, 2, 1, 1, 1, 1, 1, 1, 1, 1, 1, 1, 1}
 	for i := 0; i < nt; i++ {
 		nops := 1 + rng.Intn(3)
 		if small {
@@ -143,7 +144,13 @@ func genSchedTrace(base, idx uint64, small bool) (*SchedTrace, sched.Policy, uin
 				op.P = []int{pick(), pick()}
 			case "Add":
 				op.P = []int{pick(), pick()}
-			case "BytesRoundTrip", "MultByCofactor":
+			case "BytesRoundTrip", "MultByCofactor", "Encode", "CoordsRoundTrip":
+				op.P = []int{pick()}
+			case "NegateSubtract", "Equal":
+				op.P = []int{pick(), pick()}
+			case "ScalarArith":
+				op.S = []int{rng.Intn(ns), rng.Intn(ns), rng.Intn(ns)}
+			case "FieldArith":
 				op.P = []int{pick()}
 			}
 			prog = append(prog, op)
@@ -243,6 +250,38 @@ func runProgram(prog []TOp, sh *shared, out *[]string) {
 					extra += " err=" + err.Error()
 					recv = nil
 				}
+			case "Encode":
+				p := pt(op.P[0])
+				extra = fmt.Sprintf(" bytes=%x mont=%x", p.Bytes(), p.BytesMontgomery())
+				recv = edwards25519.NewIdentityPoint()
+			case "CoordsRoundTrip":
+				X, Y, Z, T := pt(op.P[0]).ExtendedCoordinates()
+				if _, err := recv.SetExtendedCoordinates(X, Y, Z, T); err != nil {
+					extra = " err=" + err.Error()
+					recv = nil
+				}
+			case "NegateSubtract":
+				recv.Negate(pt(op.P[0]))
+				recv.Subtract(recv, pt(op.P[1]))
+			case "Equal":
+				extra = fmt.Sprintf(" equal=%d", pt(op.P[0]).Equal(pt(op.P[1])))
+				recv = edwards25519.NewIdentityPoint()
+			case "ScalarArith":
+				s := new(edwards25519.Scalar).MultiplyAdd(sc(op.S[0]), sc(op.S[1]), sc(op.S[2]))
+				s.Subtract(s, sc(op.S[0])).Negate(s)
+				u, _ := new(edwards25519.Scalar).SetUniformBytes(append(s.Bytes(), sc(op.S[1]).Bytes()...))
+				extra = fmt.Sprintf(" scalar=%x wide=%x eq=%d", s.Bytes(), u.Bytes(), s.Equal(u))
+				recv = edwards25519.NewIdentityPoint()
+			case "FieldArith":
+				X, Y, Z, _ := pt(op.P[0]).ExtendedCoordinates()
+				var e, f field.Element
+				e.Invert(Z)
+				f.Multiply(X, &e)
+				e.Multiply(Y, &e)
+				r, wasSq := new(field.Element).SqrtRatio(&f, &e)
+				f.Absolute(f.Subtract(&f, &e))
+				extra = fmt.Sprintf(" x=%x sqrt=%x/%d abs=%x neg=%d", f.Bytes(), r.Bytes(), wasSq, f.Bytes(), e.IsNegative())
+				recv = edwards25519.NewIdentityPoint()
 			case "NewGenerator":
 				recv = edwards25519.NewGeneratorPoint()
 			case "ScalarInvert":
@@ -398,6 +437,7 @@ func runSched(t *SchedTrace, pol sched.Policy, schedSeed uint64, replay [][]sche
 	so.Stats["yields"] = int64(res.Yields)
 	so.Stats["switches"] = int64(res.Switches)
 	so.Stats["gate_blocks"] = int64(res.GateBlocks)
+	so.Stats["gate_calls"] = int64(res.GateCalls)
 	so.Stats["preempt_inside_once_closure"] = int64(res.PreemptInClosure)
 	so.Stats["tasks"] = int64(n)
 	so.SwitchHash = fmt.Sprintf("%016x", res.SwitchHash)
@@ -512,6 +552,48 @@ func runSched(t *SchedTrace, pol sched.Policy, schedSeed uint64, replay [][]sche
 		}
 	}
 	so.Stats["first_use_write_sites"] = int64(firstUse)
+	// oracle 2b: construction in private memory that is published afterwards has no
+	// package-state write to count, so the amount of first-use-only work is compared
+	// as well: statements that a sequential cold run executes but a warm run does not
+	// (cold > 0, warm == 0). A correct scheme repeats at most a few slow-path prologue
+	// statements per task; duplicated construction repeats the construction itself.
+	var coldWork, excess uint64
+	worst, worstExcess := -1, uint32(0)
+	for s := range field.VerifSites {
+		if s >= len(ro.Cold) || ro.Warm[s] != 0 || ro.Cold[s] == 0 {
+			continue
+		}
+		var conc uint32
+		for _, c := range res.Counts {
+			conc += c[s]
+		}
+		coldWork += uint64(ro.Cold[s])
+		if conc > ro.Cold[s] {
+			e := conc - ro.Cold[s]
+			excess += uint64(e)
+			if e > worstExcess {
+				worst, worstExcess = s, e
+			}
+		}
+	}
+	// reach probe, scheme-agnostic: pre-emptions that landed inside first-use-only code
+	var preFU int64
+	for _, d := range res.Log {
+		if d.Kind == 0 && d.Site >= 0 && d.Site < len(ro.Cold) && ro.Warm[d.Site] == 0 && ro.Cold[d.Site] > 0 {
+			preFU++
+		}
+	}
+	so.Stats["preempt_inside_first_use_code"] = preFU
+	if coldWork > 0 {
+		so.Stats["runs_with_first_use_code"] = 1
+	}
+	so.Stats["first_use_only_statements_cold"] = int64(coldWork)
+	so.Stats["first_use_only_statements_repeated"] = int64(excess)
+	if excess > 200 && excess*10 > coldWork {
+		so.Violation = viol("first-use-construction-not-exactly-once", "duplicated-work",
+			fmt.Sprintf("statements that only run on first use were executed %d times more often under this schedule than in a sequential cold run (which executes %d of them); most repeated: %s, %d extra executions: the first-use construction ran more than once", excess, coldWork, siteName(worst), worstExcess))
+		return so
+	}
 	_ = warm
 	// distinct per-task site traces (reach measure)
 	return so
